@@ -1,4 +1,22 @@
-"""C16  Word-id list encoding round-trips and substring search means sub-list."""
+"""C16  Word-id list encoding round-trips and substring search means sub-list.
+
+Later-call / aliasing probes (`decm`, `wordsm`, `encm`; asked of the model as plain `dec` / `enc`): every list a call
+hands out belongs to the caller - it is mutated (sort, reverse, pop, clear, append, extend, item / slice assignment,
+`*=`, insert) and the call repeated (same code; through `BaseIndex.get_words` of the same document and of a twin
+document with the same words, followed by unindex_doc, which diffs against get_words); lists handed IN to `encode`
+(list / tuple / iterator) must come back unchanged, the result must be a `str`, and the SAME list object changed by
+its owner must be encoded afresh.  On top, every list any call of the session returned is kept with a snapshot and
+re-compared after every later call.
+Prefix-related pairs are also placed at the very END / START of a document with a last continuation byte that
+regular expressions, str methods, C strings or format strings treat specially (0x0A for `$`, 0x0D, NUL, backslash,
+`$`, `.`, ...), phrase ending in the short id; and the true hits of the same shape.
+
+Seeded C16_F (decode behind functools.lru_cache: the same list object for equal codes) was missed before and is
+caught now; C16_E (regex `$` accepts a hit before a trailing 0x0A) was caught on some runs only, now on quick seeds
+0-5.  Two more of the aliasing class, both VIOLATION on quick seed 0:
+  a  decode() refills and returns one module-level list (`del _buf[:]; _buf.extend(...); return _buf`)
+  b  encode() remembers the last list it was given BY IDENTITY and returns the remembered code for it
+"""
 import random
 
 from lib.core import exc_name
@@ -15,7 +33,18 @@ RULE = ("cases are sessions of enc/dec/find/rt/digest commands over word ids dra
         "boundaries (2^7, 2^14, 2^21, 2^28-1, +-3), prefix-related id pairs and uniform ids; thorough adds "
         "every id in [0,2^28) in 256 ranges (digest of the concatenated code mod 2^61-1, length, and "
         "decode(encode(range)) == range on the implementation); non-trivial = the case contains an id of "
-        "at least two different code lengths or a find whose phrase has a prefix-related id in the document")
+        "at least two different code lengths or a find whose phrase has a prefix-related id in the document; "
+        "30% of the cases start with 2-5 aliasing probes over a pool of re-used id lists: decm (decode, mutate the "
+        "returned list with one of 12 list operations, decode the same code again), wordsm (two documents with the "
+        "same words in a real OkapiIndex: get_words, mutate, get_words of the same / the twin / both, then "
+        "unindex_doc and search every word), encm (encode a list / tuple / iterator: result type, argument "
+        "unchanged, the same list object changed by its owner encoded again); every list any call returned is "
+        "re-compared with its snapshot after each later call; 14% of the other commands are finds with a "
+        "prefix-related pair at the very end / start / middle of the document whose last continuation byte is one of "
+        "30 special ones. Measured quick seed 0 (1605 cases, 11695 commands): decm 641, wordsm 332 (same 90, twin 115, "
+        "both 127), encm 262 (list 124, tuple 62, iterator 76), the same code decoded again after a mutation 242; "
+        "finds 4943, raw hit inside a longer id 1515, inside the LAST id of the document 695 (last byte special 592, "
+        "the single byte 0x0A left 57), inside the FIRST id 447, true hit at the end with a special last byte 384")
 TRUSTED = ["phrase scan observed through OkapiIndex.search_phrase with a stub lexicon that maps text to the "
            "given word ids (the lexicon is a constructor argument of the index)"]
 P61 = (1 << 61) - 1
